@@ -14,6 +14,7 @@ import (
 // side, which the server side sees as EOF.
 
 type vrtNativeConn struct {
+	live    bool
 	client  *net.TCPConn
 	chunks  [][]byte
 	mu      sync.Mutex
@@ -56,8 +57,31 @@ func vrt_NewTCPConn() *net.TCPConn {
 
 func vrt_ConnPushRead(c *net.TCPConn, data []byte) {
 	nc := vrtConns[c]
+	if nc.live {
+		if len(data) > 0 {
+			nc.client.Write(data)
+		}
+		time.Sleep(40 * time.Millisecond)
+		return
+	}
 	nc.chunks = append(nc.chunks, append([]byte{}, data...))
 }
+
+// vrt_ConnLive: reads block when no scripted data is left (instead of reporting EOF); data pushed
+// afterwards is delivered at once, each push in its own Read.
+func vrt_ConnLive(c *net.TCPConn) { vrtConns[c].live = true }
+
+// vrt_ConnEOF: the peer closes its side.
+func vrt_ConnEOF(c *net.TCPConn) {
+	vrtConns[c].client.CloseWrite()
+	time.Sleep(40 * time.Millisecond)
+}
+
+// vrt_Yield lets the other goroutines run until they block (engine: cooperative scheduler).
+func vrt_Yield() { time.Sleep(60 * time.Millisecond) }
+
+// vrt_Wake releases goroutines parked in time.Sleep (engine); natively time passes by itself.
+func vrt_Wake() {}
 
 // vrt_ConnStart begins delivering the script (natively); the harness then runs the reader.
 func vrt_ConnStart(c *net.TCPConn) {
